@@ -2,6 +2,7 @@ package main
 
 import (
 	"fmt"
+	"os"
 	"go/token"
 	"go/types"
 	"golang.org/x/tools/go/callgraph"
@@ -36,6 +37,14 @@ type retKey struct {
 type step struct {
 	elem  bool
 	field int
+	cond  *fieldCond // only struct instances satisfying this sibling-field condition matter
+}
+
+// fieldCond: sibling field #field (a string) is != k (neq) or == k.
+type fieldCond struct {
+	field int
+	k     string
+	neq   bool
 }
 
 func pathKey(p []step) string {
@@ -45,6 +54,9 @@ func pathKey(p []step) string {
 			sb.WriteString("e")
 		} else {
 			fmt.Fprintf(&sb, "f%d", s.field)
+			if s.cond != nil {
+				fmt.Fprintf(&sb, "[f%d,%q,%v]", s.cond.field, s.cond.k, s.cond.neq)
+			}
 		}
 		sb.WriteByte('.')
 	}
@@ -117,6 +129,9 @@ func (a *nilAn) nnp(v ssa.Value, path []step, b *ssa.BasicBlock) bool {
 		a.memo[k] = 2
 	} else {
 		a.memo[k] = 3
+		if os.Getenv("GVDEBUG") == "2" {
+			fmt.Fprintf(os.Stderr, "nnp-fail: %s in %s path=%s (%T)\n", v.Name(), b.Parent(), pathKey(path), v)
+		}
 	}
 	return r
 }
@@ -239,6 +254,132 @@ func (a *nilAn) nnp1(v ssa.Value, path []step, b *ssa.BasicBlock) bool {
 	return false
 }
 
+// excludedBy: the struct under construction (field stores rooted at base) has a discriminator
+// value that the condition rules out, so this construction site is irrelevant.
+func (a *nilAn) excludedBy(c *fieldCond, fieldStores func(field int) []*ssa.Store) bool {
+	if c == nil {
+		return false
+	}
+	sts := fieldStores(c.field)
+	if len(sts) > 1 {
+		return false
+	}
+	if len(sts) == 0 {
+		// zero value ""
+		return c.neq == (c.k == "")
+	}
+	sv := sts[0].Val
+	if k, ok := constString(sv); ok {
+		return c.neq == (k == c.k)
+	}
+	// a dominating branch condition at the store fixes the value
+	eq, known := false, false
+	domEdges(sts[0].Block(), func(cond ssa.Value, tv bool) bool {
+		bo, ok := cond.(*ssa.BinOp)
+		if !ok || (bo.Op != token.EQL && bo.Op != token.NEQ) {
+			return false
+		}
+		var k string
+		var okc bool
+		if bo.X == sv {
+			k, okc = constString(bo.Y)
+		} else if bo.Y == sv {
+			k, okc = constString(bo.X)
+		}
+		if !okc || k != c.k {
+			return false
+		}
+		isEq := (bo.Op == token.EQL) == tv
+		eq, known = isEq, true
+		return true
+	})
+	if !known {
+		return false
+	}
+	return c.neq == eq
+}
+
+// siblingCond: a dominating condition at b comparing another string field of the same
+// struct base with a constant.
+func (a *nilAn) siblingCond(base ssa.Value, exclude int, b *ssa.BasicBlock) *fieldCond {
+	f := b.Parent()
+	var out *fieldCond
+	domEdges(b, func(cond ssa.Value, tv bool) bool {
+		bo, ok := cond.(*ssa.BinOp)
+		if !ok || (bo.Op != token.EQL && bo.Op != token.NEQ) {
+			return false
+		}
+		var ld ssa.Value
+		var k string
+		var okc bool
+		if k, okc = constString(bo.Y); okc {
+			ld = bo.X
+		} else if k, okc = constString(bo.X); okc {
+			ld = bo.Y
+		} else {
+			return false
+		}
+		u, ok := ld.(*ssa.UnOp)
+		if !ok || u.Op != token.MUL {
+			return false
+		}
+		fa, ok := u.X.(*ssa.FieldAddr)
+		if !ok || fa.Field == exclude || !a.sameVal(f, fa.X, base) {
+			return false
+		}
+		out = &fieldCond{field: fa.Field, k: k, neq: (bo.Op == token.NEQ) == tv}
+		return out.neq // prefer an exclusion
+	})
+	return out
+}
+
+// sortCallbackSource: fn is passed as the comparator of slices.SortFunc / sort.Slice at a repo
+// call site; its element parameters are elements of the sorted slice.
+func (a *nilAn) sortCallbackSource(fn *ssa.Function) (ssa.Value, *ssa.BasicBlock) {
+	if v, b := a.sortCallbackSource1(fn, true); v != nil {
+		return v, b
+	}
+	return a.sortCallbackSource1(fn, false)
+}
+
+func (a *nilAn) sortCallbackSource1(fn *ssa.Function, exact bool) (ssa.Value, *ssa.BasicBlock) {
+	for f2 := range a.p.AllFns {
+		if !a.p.IsRepoFn(f2) {
+			continue
+		}
+		for _, blk := range f2.Blocks {
+			for _, ins := range blk.Instrs {
+				c, ok := ins.(*ssa.Call)
+				if !ok {
+					continue
+				}
+				cal := c.Call.StaticCallee()
+				if cal == nil {
+					continue
+				}
+				name := extName(cal)
+				if name != "slices.SortFunc" && name != "slices.SortStableFunc" {
+					continue
+				}
+				if len(c.Call.Args) != 2 {
+					continue
+				}
+				arg := c.Call.Args[1]
+				if mc, ok := arg.(*ssa.MakeClosure); ok {
+					arg = mc.Fn
+				}
+				if ct, ok := arg.(*ssa.ChangeType); ok {
+					arg = ct.X
+				}
+				if af, ok := arg.(*ssa.Function); ok && (af == fn || !exact && (af.Origin() != nil && af.Origin() == fn || fn.Origin() != nil && fn.Origin() == af)) {
+					return c.Call.Args[0], blk
+				}
+			}
+		}
+	}
+	return nil, nil
+}
+
 // allocNNP: al is a local allocation (pointer to a struct, array or variable).
 func (a *nilAn) allocNNP(al *ssa.Alloc, path []step, b *ssa.BasicBlock) bool {
 	if len(path) == 0 {
@@ -297,6 +438,22 @@ func (a *nilAn) allocNNP(al *ssa.Alloc, path []step, b *ssa.BasicBlock) bool {
 				continue
 			}
 			if len(path) >= 2 && !path[1].elem {
+				if a.excludedBy(path[1].cond, func(field int) []*ssa.Store {
+					var out []*ssa.Store
+					for _, r2 := range *ia.Referrers() {
+						if fa, isFA := r2.(*ssa.FieldAddr); isFA && fa.Field == field {
+							for _, r3 := range *fa.Referrers() {
+								if s, isStore := r3.(*ssa.Store); isStore && s.Addr == fa {
+									out = append(out, s)
+								}
+							}
+						}
+					}
+					return out
+				}) {
+					covered[ci] = true
+					continue
+				}
 				stored := false
 				for _, r2 := range *ia.Referrers() {
 					if fa, isFA := r2.(*ssa.FieldAddr); isFA && fa.Field == path[1].field {
@@ -352,6 +509,21 @@ func (a *nilAn) allocNNP(al *ssa.Alloc, path []step, b *ssa.BasicBlock) bool {
 				return false
 			}
 		}
+		return true
+	}
+	if a.excludedBy(path[0].cond, func(field int) []*ssa.Store {
+		var out []*ssa.Store
+		for _, ref := range *al.Referrers() {
+			if fa, ok := ref.(*ssa.FieldAddr); ok && fa.Field == field {
+				for _, r2 := range *fa.Referrers() {
+					if s, ok := r2.(*ssa.Store); ok && s.Addr == fa {
+						out = append(out, s)
+					}
+				}
+			}
+		}
+		return out
+	}) {
 		return true
 	}
 	st := et.Underlying().(*types.Struct)
@@ -664,16 +836,39 @@ func (a *nilAn) apiValueSource(par *ssa.Parameter) *ssa.Function {
 
 func (a *nilAn) paramNNP(par *ssa.Parameter, path []step) bool {
 	fn := par.Parent()
-	if o := fn.Origin(); o != nil {
-		for i, p := range fn.Params {
-			if p == par && i < len(o.Params) {
-				return a.nnp(o.Params[i], path, o.Blocks[0])
-			}
-		}
-	}
 	if isAPIRoot(a.p, fn) || fn.Name() == "init" {
 		if len(path) == 0 {
-			return true // contract: callers pass non-nil values
+			// contract: external callers pass non-nil values; call sites inside the repo are checked
+			for _, n := range a.cgNodesOf(fn) {
+				for _, e := range n.In {
+					if e.Site == nil || !a.p.IsRepoFn(e.Caller.Func) {
+						continue
+					}
+					args := e.Site.Common().Args
+					idx := -1
+					for i, p := range fn.Params {
+						if p == par {
+							idx = i
+						}
+					}
+					if e.Site.Common().IsInvoke() {
+						if idx == 0 {
+							if !a.nnp(e.Site.Common().Value, nil, e.Site.Block()) {
+								return false
+							}
+							continue
+						}
+						idx--
+					}
+					if idx < 0 || idx >= len(args) || !a.nnp(args[idx], nil, e.Site.Block()) {
+						if os.Getenv("GVDEBUG") != "" {
+							fmt.Fprintf(os.Stderr, "nil-debug: %s param %s: call site %s in %s passes possibly-nil\n", a.p.FnKey(fn), par.Name(), a.p.Pos(e.Site.Pos()), e.Caller.Func)
+						}
+						return false
+					}
+				}
+			}
+			return true
 		}
 		if src := a.apiValueSource(par); src != nil {
 			return a.retWhenErrNil(src, 0, path)
@@ -699,6 +894,12 @@ func (a *nilAn) paramNNP(par *ssa.Parameter, path []step) bool {
 			if !a.p.IsRepoFn(e.Caller.Func) {
 				// called back from std (strings.Map, slices.SortFunc closures)
 				if len(path) == 0 && !nillable(par.Type()) {
+					continue
+				}
+				if src, blk := a.sortCallbackSource(fn); src != nil {
+					if !a.nnp(src, push(step{elem: true}, path), blk) {
+						return false
+					}
 					continue
 				}
 				return false
@@ -746,7 +947,7 @@ func (a *nilAn) initExtStores() {
 	a.extInit = true
 	a.extStores = map[fieldKey]bool{}
 	for fn := range a.p.AllFns {
-		if !a.p.IsRepoFn(fn) || fn.Origin() != nil {
+		if !a.p.IsRepoFn(fn) {
 			continue
 		}
 		bf := a.bp.forFn(fn)
@@ -790,7 +991,7 @@ func (a *nilAn) loadNNP(u *ssa.UnOp, path []step, b *ssa.BasicBlock) bool {
 				return false
 			}
 		}
-		return a.nnp(ad.X, push(step{field: ad.Field}, path), b)
+		return a.nnp(ad.X, push(step{field: ad.Field, cond: a.siblingCond(ad.X, ad.Field, b)}, path), b)
 	case *ssa.IndexAddr:
 		return a.nnp(ad.X, push(step{elem: true}, path), b)
 	case *ssa.Global:
@@ -837,10 +1038,7 @@ func rulePanicNil(p *Prog, r *Report) {
 	roots := append(p.LibraryRoots(), p.CLIRoots()...)
 	fns := p.RepoReachable(roots...)
 	a := &nilAn{p: p, bp: newBP(p), memo: map[nilKey]int{}, retNN: map[retKey]int{}}
-	for _, fn := range fns {
-		if fn.Origin() != nil {
-			continue
-		}
+	for _, fn := range p.Representatives(fns) {
 		fk := p.FnKey(fn)
 		for _, blk := range fn.Blocks {
 			for _, ins := range blk.Instrs {
